@@ -163,6 +163,21 @@ fn fpo_reference(info: &StackInfoWin, abp: bool, w: &W86) -> Option<(u64, u64, u
 #[kani::proof]
 #[kani::unwind(8)]
 fn c07_q_fpo_matches_documented_formulae() {
+    fpo_matches_documented_formulae();
+}
+
+/// F: walk_with_stack_win_fpo as the unwinding step of frames described by STACK WIN type-0 (FPO) records (same body as c07_q_fpo_matches_documented_formulae, registered under C04: the recovered caller eip / esp / ebp / ebx are that frame of the call chain)
+/// I: as c07_q_fpo_matches_documented_formulae
+/// B: one record, one step, window 4 words
+/// A: as there
+/// O: as there; in particular the saved-ebp slot is located with the grand-callee parameter size, not the record's own
+#[kani::proof]
+#[kani::unwind(8)]
+fn c04_q_stack_win_fpo_step() {
+    fpo_matches_documented_formulae();
+}
+
+fn fpo_matches_documented_formulae() {
     let mut w = any_walker();
     let abp: bool = kani::any();
     let info = any_info(WinStackThing::AllocatesBasePointer(abp));
